@@ -200,7 +200,7 @@ PLAN = {
         "wtf": True,
         "quick": [
             {"run": "TestC17_Search", "checks": 200},
-            {"run": "TestC17_Subcommands", "checks": 250},
+            {"run": "TestC17_Subcommands", "checks": 900},
         ],
         "thorough": [
             {"run": "TestC17_Search", "checks": 6000, "shards": 10, "timeout": 3000},
